@@ -27,7 +27,7 @@ func VerifC04_v6_merge() {
 	}
 	body.Tenant, body.Actor, body.Name = str("tenant"), str("actor"), str("name")
 	if nondetBool("tags-present") {
-		body.Tags = []string{nondetStringUpTo("tag", 1)}
+		body.Tags = []string{nondetStringUpTo("tag", deep(1))}
 	} else {
 		missing = true
 	}
@@ -56,7 +56,7 @@ func VerifC04_v6_restate() {
 	body := &server.RestateRequestBody{}
 	rules := map[string]bool{}
 	if nondetBool("a-present") {
-		a := nondetStringUpTo("a", 3)
+		a := nondetStringUpTo("a", deep(3))
 		verifAssume(utf8.ValidString(a))
 		body.A = &a
 		if utf8.RuneCountInString(a) < 2 {
@@ -75,7 +75,7 @@ func VerifC04_v6_restate() {
 		rules["missing_field"] = true
 	}
 	if nondetBool("c-present") {
-		c := nondetStringUpTo("c", 1)
+		c := nondetStringUpTo("c", deep(1))
 		body.C = &c
 	} else {
 		rules["missing_field"] = true
@@ -99,7 +99,7 @@ func VerifC04_v6_restate() {
 // design v6, methods ra/rb/rc: Named.name has MaxLength(6); ra re-declares it
 // with MaxLength(4), rb with MinLength(2)+MaxLength(8), rc uses Named as it is.
 func VerifC04_v6_redeclared() {
-	name := nondetStringUpTo("name", 9)
+	name := nondetStringUpTo("name", deep(9))
 	for i := 0; i < len(name); i++ {
 		verifAssume(name[i] < 0x80) // one rune per byte
 	}
